@@ -371,6 +371,95 @@ func c01RunView(tb drv.TB, rec *drv.Rec, sub string, cs c01Case) {
 	}
 }
 
+type c01PingReply struct {
+	Ping    int  `json:"ping"`    // which in-flight ping's identifier the reply carries
+	V6      bool `json:"v6"`      // ICMPv6 echo reply (129) instead of ICMPv4 (0)
+	Times   int  `json:"times"`   // the same reply parsed this many times back to back
+	Foreign bool `json:"foreign"` // an identifier nobody waits for
+	Request bool `json:"request"` // an echo request with that identifier instead of a reply
+}
+
+type c01PingCase struct {
+	N       int            `json:"n"`
+	V6      []bool         `json:"v6"`
+	Replies []c01PingReply `json:"replies"`
+}
+
+// echoFrame builds an ICMP echo frame from a client to our host.
+func echoFrame(w gen.World, v6 bool, typ byte, id uint16) []byte {
+	var rest [4]byte
+	rest[0], rest[1], rest[3] = byte(id>>8), byte(id), 1
+	if v6 {
+		src, dst := netip.MustParseAddr("fe80::aa").As16(), w.HostLLA.As16()
+		body := append(rest[:], []byte("HELLO")...)
+		return ref.Eth(w.HostMAC, w.Clients[0], 0x86dd, ref.IP6(ref.IP6Hdr{PayloadLen: -1, Next: 58, HopLimit: 64, Src: src, Dst: dst}, ref.ICMP6(src, dst, typ, 0, body)))
+	}
+	return ref.Eth(w.HostMAC, w.Clients[0], 0x0800, ref.IP4(ref.IP4Hdr{TotalLen: -1, TTL: 64, Proto: 1, Checksum: -1, Src: [4]byte{192, 168, 0, 5}, Dst: w.HostIP.As4()}, ref.ICMP(typ, 0, rest, []byte("HELLO"), true)))
+}
+
+func c01RunPings(tb drv.TB, rec *drv.Rec, sub string, c c01PingCase) {
+	rec.Eval()
+	drv.Begin("C01", sub, 'J', mustJSON(c), 20*time.Second)
+	defer drv.End()
+	w := gen.DefaultWorld()
+	s, conn := newSession(defaultNIC())
+	defer closeSession(s)
+	done := make(chan struct{}, c.N)
+	for i := 0; i < c.N; i++ {
+		v6 := c.V6[i]
+		go func() {
+			defer func() { recover(); done <- struct{}{} }()
+			if v6 {
+				s.Ping6(packet.Addr{MAC: hw(w.HostMAC), IP: w.HostLLA}, packet.Addr{MAC: hw(w.Clients[0]), IP: netip.MustParseAddr("fe80::aa")}, 250*time.Millisecond)
+			} else {
+				s.Ping(packet.Addr{MAC: hw(w.Clients[0]), IP: netip.MustParseAddr("192.168.0.5")}, 250*time.Millisecond)
+			}
+		}()
+	}
+	// learn the identifiers from the echo requests on the wire
+	var ids []uint16
+	for wait := 0; wait < 400 && len(ids) < c.N; wait++ {
+		for _, f := range conn.Take() {
+			d := ref.Decode(f.B)
+			if (d.PayloadID == ref.PICMP4 || d.PayloadID == ref.PICMP6) && d.OffPayload+6 <= len(f.B) {
+				ids = append(ids, uint16(f.B[d.OffPayload+4])<<8|uint16(f.B[d.OffPayload+5]))
+			}
+		}
+		if len(ids) < c.N {
+			time.Sleep(500 * time.Microsecond)
+		}
+	}
+	buf := make([]byte, packet.EthMaxSize)
+	for _, r := range c.Replies {
+		id := uint16(0xfff0)
+		if !r.Foreign && r.Ping < len(ids) {
+			id = ids[r.Ping]
+		}
+		typ := byte(0)
+		if r.V6 {
+			typ = 129
+		}
+		if r.Request {
+			typ = 8
+			if r.V6 {
+				typ = 128
+			}
+		}
+		fb := echoFrame(w, r.V6, typ, id)
+		for k := 0; k < r.Times; k++ {
+			n := copy(buf, fb)
+			if p, sig, st := drv.Catch(func() { s.Parse(buf[:n]) }); p != nil {
+				rec.Violation(tb, sub, sig, c, "Parse of an echo reply (id %d, copy %d) panicked while %d pings were in flight: %v\n%s", id, k+1, c.N, p, st)
+				return
+			}
+		}
+	}
+	for i := 0; i < c.N; i++ {
+		<-done
+	}
+	rec.NonTrivial(drv.HashJSON(c), func() interface{} { return c })
+}
+
 func TestC01(t *testing.T) {
 	rec := drv.For("C01", c01Rule)
 	w := gen.DefaultWorld()
@@ -399,6 +488,19 @@ func TestC01(t *testing.T) {
 			c01RunParse(tb, rec, "prefixes", c.Data[:n])
 		}
 	})
+
+	// Parse of echo replies while pings are in flight (Parse wakes the waiter: shared state behind Parse)
+	drv.Prop(t, rec, "pending-pings", 150, 3000, func(t *rapid.T) c01PingCase {
+		c := c01PingCase{N: rapid.IntRange(1, 4).Draw(t, "npings")}
+		for i := 0; i < c.N; i++ {
+			c.V6 = append(c.V6, rapid.Bool().Draw(t, "v6"))
+		}
+		for i := rapid.IntRange(1, 8).Draw(t, "nreplies"); i > 0; i-- {
+			c.Replies = append(c.Replies, c01PingReply{Ping: rapid.IntRange(0, c.N-1).Draw(t, "ping"), V6: rapid.Bool().Draw(t, "rv6"), Times: rapid.IntRange(1, 3).Draw(t, "times"),
+				Foreign: rapid.IntRange(0, 3).Draw(t, "foreign") == 0, Request: rapid.IntRange(0, 5).Draw(t, "asRequest") == 0})
+		}
+		return c
+	}, func(tb drv.TB, c c01PingCase) { c01RunPings(tb, rec, "pending-pings", c) })
 
 	drv.Prop(t, rec, "views", 60000, 1500000, func(t *rapid.T) c01Case {
 		v := rapid.SampledFrom(c01Views).Draw(t, "view")
